@@ -204,8 +204,12 @@ def judge(ctx, recs, label):
             nrej += len(g["recs"])
             for r in g["recs"]:
                 op = ops[r["label"]]
+                where = where_of(r, op)
+                if v["clauses"] == ["ParseErrorsCarryData"]:
+                    # the data is attached by the operation method
+                    where = op.name
                 sig = "%s:%s:%s" % ("+".join(v["clauses"]), obs_name(r["obs"]),
-                                    where_of(r, op))
+                                    where)
                 cells = "+".join("%s/%s/%s/%s" % dkey(d)
                                  for d in r["defects"]) or "valid"
                 ctx.extra.setdefault("violation_cells", {}).setdefault(
@@ -223,6 +227,53 @@ def judge(ctx, recs, label):
                      "variant": r["variant"], "seed": ctx.seed,
                      "event": g["ev"], "clauses": v["clauses"]})
     return nrej, ndrift
+
+
+def selftest_corrupted(ctx, recs):
+    """Corrupt one field of a recorded (accepted) event at a time: TLC must
+    reject each copy with the clause that field belongs to."""
+    ops = ops_by_label()
+    base_err = base_val = None
+    for r in recs:
+        if "skipped" in r or len(r["defects"]) != 1:
+            continue
+        o = r["obs"]
+        if base_err is None and o["kind"] == "error" and \
+                o["cls"] == "CIMXMLParseError" and o["req"] and o["resp"] \
+                and r["defects"][0]["k"].startswith("v_"):
+            base_err = event_of(r, ops[r["label"]])
+        if base_val is None and o["kind"] == "value" and o["typeok"]:
+            base_val = event_of(r, ops[r["label"]])
+    if base_err is None or base_val is None:
+        raise vlib.MachineryError("no accepted events to corrupt")
+    cases = [
+        (dict(base_err), None),
+        (dict(base_err, req=False), "ParseErrorsCarryData"),
+        (dict(base_err, resp=False), "ParseErrorsCarryData"),
+        (dict(base_err, kind="hang"), "Terminates"),
+        (dict(base_err, cls="ValueError", pywbem=False), "OnlyDocumented"),
+        (dict(base_err, cls="HTTPError"), "FamilyOfFailingStage"),
+        (dict(base_val, typeok=False), "ResultType"),
+        (dict(base_val, shape="nosuchshape"), "Trace.WellFormedCell"),
+    ]
+    n0, e0 = ctx.traces, ctx.events
+    vs = ctx.validate_traces("RespPipelineTrace", "RespPipelineTrace.cfg",
+                             [[c[0]] for c in cases],
+                             label="self-test: corrupted copies of recorded "
+                             "events must be rejected")
+    ctx.traces, ctx.events = n0, e0
+    res = []
+    for (ev, clause), v in zip(cases, vs):
+        if clause is None:
+            if not v["ok"]:
+                raise vlib.MachineryError("uncorrupted event rejected: %s" % v)
+            continue
+        if v["ok"] or clause not in v["clauses"]:
+            raise vlib.MachineryError(
+                "corrupted event not rejected with %s: %s %s" %
+                (clause, v, ev))
+        res.append("corrupted copy rejected with clause %s" % clause)
+    ctx.extra["corrupted_trace_selftest"] = res
 
 
 def run(ctx):
@@ -309,6 +360,7 @@ def run(ctx):
         if len(r["defects"]) < 2:
             raise vlib.MachineryError("single-defect cell not renderable: %s"
                                       % r)
+    selftest_corrupted(ctx, recs)
     nrej, ndrift = judge(ctx, recs, "observed calls")
     # ---- 3. evidence -----------------------------------------------------------
     done = [r for r in recs if "skipped" not in r]
